@@ -288,6 +288,13 @@ fn write_file_contents<'data, A: Arch<Platform = Elf>>(
             Ok(())
         })
         .collect();
+    #[cfg(feature = "verif")]
+    for r in &results {
+        match r {
+            Ok(()) => crate::verif_api::errlog::note("writer-ok"),
+            Err(e) => crate::verif_api::errlog::arrive("writer", e),
+        }
+    }
     results.into_iter().collect::<Result>()?;
 
     for (output_section_id, _) in layout.output_sections.ids_with_info() {
